@@ -13,7 +13,7 @@ if [ -n "${MUT_TESTS:-}" ]; then
 fi
 rc=0
 for ID in "$@"; do
-  out="$(cd /verif && SV_SRC="$W/repo/src" SV_OUT="$W/out" SV_NO_SHRINK=${SV_NO_SHRINK-1} ./check "$ID" --tier "$TIER" 2>&1)"
+  out="$(cd /verif && SV_SRC="$W/repo/src" SV_OUT="$W/out" SV_NO_SHRINK=${SV_NO_SHRINK-1} ./check "$ID" --tier "$TIER" ${MUT_ONLY:+--only $MUT_ONLY} 2>&1)"
   code=$?
   if [ $code -eq 1 ]; then echo "CAUGHT $ID $(basename "$PATCH"): $(echo "$out" | grep -m1 'violation kind' )";
   else echo "MISSED $ID $(basename "$PATCH") (exit $code)"; echo "$out" | tail -5; rc=1; fi
